@@ -409,7 +409,7 @@ func (r ruleData) toAuditRuleData() (*auditRuleData, error) {
 		for _, syscallNum := range r.syscalls {
 			word := syscallNum / 32
 			bit := 1 << (syscallNum - (word * 32))
-			if int(word) > len(data.Mask) {
+			if int(word) >= len(data.Mask) {
 				return nil, fmt.Errorf("invalid syscall number %v", syscallNum)
 			}
 			data.Mask[word] |= uint32(bit)
@@ -434,6 +434,9 @@ func (r ruleData) toAuditRuleData() (*auditRuleData, error) {
 }
 
 func (r *ruleData) fromAuditRuleData(in *auditRuleData) error {
+	if in.FieldCount > maxFields {
+		return fmt.Errorf("field count %d exceeds the maximum of %d", in.FieldCount, maxFields)
+	}
 	r.flags = in.Flags
 	r.action = in.Action
 	r.fields = make([]field, in.FieldCount)
@@ -465,7 +468,7 @@ func (r *ruleData) fromAuditRuleData(in *auditRuleData) error {
 			subjectRoleField, subjectTypeField, subjectSensitivityField,
 			subjectClearanceField, keyField, exeField:
 			end := in.Values[i] + offset
-			if end > in.BufLen {
+			if end < offset || end > in.BufLen {
 				return fmt.Errorf("field %d overflows buffer", i)
 			}
 			r.strings = append(r.strings, string(in.Buf[offset:end]))
